@@ -42,6 +42,9 @@ type Script struct {
 	Calls []Call `json:"calls,omitempty"`
 	// position of the broken line among the calls (check_err / parse_err)
 	BadAt int `json:"bad_at,omitempty"`
+	// BadText selects the text of a parse_err script's broken line(s): grammar errors, lexical
+	// errors (the lexer stops with an error token), two diagnostics, an unterminated block
+	BadText int `json:"bad_text,omitempty"`
 }
 
 type Workload struct {
@@ -91,11 +94,20 @@ func render(w *Workload) rendered {
 		bad := func() {
 			switch s.Kind {
 			case "parse_err":
-				if s.BadAt%2 == 1 {
+				switch s.BadText {
+				case 1:
 					// two diagnostics in one script: a non-fatal one (slice bound type) and a syntax error
 					line("x = y[1.5:2]")
 					line("z w")
-				} else {
+				case 2:
+					line("$") // lexical error on a line of its own, after complete statements
+				case 3:
+					line("b = \"unterminated")
+				case 4:
+					line(")")
+				case 5:
+					line("if a {") // never closed
+				default:
 					line("a = = 1")
 				}
 			case "check_err":
@@ -263,6 +275,9 @@ func gen(r *simrt.RNG) Workload {
 			s.Calls = append(s.Calls, c)
 		}
 		s.BadAt = r.Intn(len(s.Calls) + 1)
+		if s.Kind == "parse_err" {
+			s.BadText = r.Intn(6)
+		}
 		w.Scripts = append(w.Scripts, s)
 	}
 	return w
@@ -330,7 +345,9 @@ func (Prop) Run(p *core.Plan) *core.Result {
 		}
 		_, errs := engine.ParseScript(map[string]string{s.Name: rd.src[s.Name]}, calls, checks)
 		if errs[s.Name] == nil {
-			return &core.Result{Infra: fmt.Sprintf("script %s labelled %s loads alone without error", s.Name, s.Kind)}
+			// the broken texts are fixed and objectively invalid (an unknown function, a syntax or
+			// lexical error): accepting one is a wrong verdict, not a harness matter
+			return viol("wrong-accept", "broken-script-accepted", fmt.Sprintf("script %s (%s) was accepted when loaded alone:\n%s", s.Name, s.Kind, rd.src[s.Name]))
 		}
 		e, ok := errs[s.Name].(*errchain.PlError)
 		if !ok || e == nil {
